@@ -465,6 +465,28 @@ func ModelFileReadFrom(f *os.File, r io.Reader) (int64, error) {
 	}
 }
 
+// ModelFileWriteTo is io.Copy's fast path for a file source: read to the end, write everything out.
+func ModelFileWriteTo(f *os.File, w io.Writer) (int64, error) {
+	var total int64
+	buf := make([]byte, 8)
+	for {
+		n, err := ModelFileRead(f, buf)
+		if n > 0 {
+			wn, werr := w.Write(buf[:n])
+			total += int64(wn)
+			if werr != nil {
+				return total, werr
+			}
+		}
+		if err == io.EOF {
+			return total, nil
+		}
+		if err != nil {
+			return total, err
+		}
+	}
+}
+
 func ModelFileSeek(f *os.File, offset int64, whence int) (int64, error) {
 	d, err := fsys().fd(f)
 	if err != nil {
